@@ -238,8 +238,10 @@ def opaquesOf : BV.Skel.Sk → List Nat
 
 def fnName (f : Nat) : String := BV.Gen.skelFnNames.getD f "?"
 
-/-- callees that are opaque today and the configurations in which an activation enters them -/
-def knownOpaque : List String := ["BrotliBuildMetaBlock", "LogMetaBlock"]
+/-- callees that may be opaque: `BrotliBuildMetaBlock` / `LogMetaBlock` allocate (an activation that enters them
+    makes no claim, see `handleSk`); `UpdateNodes` has no allocation of its own (it is opaque only because the
+    extractor cannot parse it) and counts as event-free -/
+def knownOpaque : List String := ["BrotliBuildMetaBlock", "LogMetaBlock", "UpdateNodes"]
 
 def parseSkEv (t : String) : Option (Bool × Nat) :=
   match splitChar ':' t with
